@@ -277,6 +277,11 @@ class Fn(object):
             return args[0]
         if kind == "fut":
             return w.make_future(b[1], b[2] if len(b) > 2 else None, "%s#%d" % (self.name, k))
+        if kind == "compose":
+            v = args[0]
+            for sub_b in b[1]:
+                v = self._do(sub_b, k, (v,), {})
+            return v
         if kind == "nonfut":
             return ("nonfuture", self.name)
         if kind == "raisearg":
@@ -443,7 +448,7 @@ class PollFn(object):
             if "raise" in extra:
                 e = EXC[extra["raise"]]()
                 e.tag = (self.name, "call", k)
-                w.raised[(self.name, "call", k)] = e
+                w.raised.setdefault(jsonable(e.tag).__repr__(), []).append(e)
                 raise e
         except Exception as e:
             w.rec("poll_raise", fn=self.name, k=k, exc=jsonable(e))
@@ -491,7 +496,7 @@ class World(object):
         if kind == "err":
             e = EXC[payload or "E2"]()
             e.tag = ("futerr", name)
-            self.raised[("futerr", name)] = e
+            self.raised.setdefault(jsonable(e.tag).__repr__(), []).append(e)
             return mf.f_return_error(e)
         if kind == "cancelled":
             return mf.f_return_cancelled()
@@ -730,6 +735,14 @@ class World(object):
                     out["exc"] = jsonable(ex)
                     reg = self.raised.get(jsonable(getattr(ex, "tag", None)).__repr__())
                     out["exc_same"] = any(r is ex for r in reg) if isinstance(reg, list) else None
+                    names = []
+                    tb = ex.__traceback__
+                    while tb is not None:
+                        me = tb.tb_frame.f_locals.get("self")
+                        if isinstance(me, Fn) and tb.tb_frame.f_code.co_name == "_do" and me.name not in names:
+                            names.append(me.name)
+                        tb = tb.tb_next
+                    out["tb_fns"] = names
                 else:
                     v = f.result(0)
                     out["value"] = jsonable(v)
@@ -764,7 +777,7 @@ class World(object):
                 elif kind == "error":
                     e = EXC[op[3] if len(op) > 3 else "E2"]()
                     e.tag = ("src", op[1])
-                    self.raised[("src", op[1])] = e
+                    self.raised.setdefault(jsonable(e.tag).__repr__(), []).append(e)
                     f.set_exception(e)
                 elif kind == "fn":
                     f.set_result(self.fn(op[1] + ".fn", op[3]))
